@@ -17,7 +17,7 @@ struct async_worker_s {
     pthread_t thread;
     async_worker_proc_t proc;
     void* context;
-    volatile async_worker_state_t state;
+    _Atomic async_worker_state_t state;   /* written by the worker thread, read by its owner */
     bool thread_created;
     platform_event_t stop_event;
 };
